@@ -42,7 +42,7 @@ VALUES = [None, True, 1, 1.0, "1", [], {}, [1], [True], {"a": 1}, {"a": True}, "
 
 
 def plan(tier, seed):
-    specs = [{"kind": "flags"}, {"kind": "test-equality"}, {"kind": "scale"}, {"kind": "pointer-subclass"}, {"kind": "move-post-removal"}] + [{"kind": "single", "doc": i, "ops": ops} for i in range(len(DOCS)) for ops in (["add", "replace", "test", "remove"], ["move"], ["copy"])]
+    specs = [{"kind": "flags"}, {"kind": "test-equality"}, {"kind": "scale"}, {"kind": "pointer-subclass"}, {"kind": "move-post-removal"}, {"kind": "threads", "rounds": 20 if tier == "quick" else 150}] + [{"kind": "single", "doc": i, "ops": ops} for i in range(len(DOCS)) for ops in (["add", "replace", "test", "remove"], ["move"], ["copy"])]
     for _ in range(6 if tier == "quick" else 20):
         specs.append({"kind": "sequences", "n": 2500 if tier == "quick" else 60000})
     return specs
@@ -264,6 +264,13 @@ def run(spec, ctx):
 
         flag_history.run(ctx)
         return
+    if spec["kind"] == "threads":
+        # one patch object applied by 8 threads at once to documents whose leaves carry the thread's tag (the workload
+        # of C15, judged here against the RFC model of each thread's own document)
+        from .c15 import run_threads
+
+        run_threads(ctx, spec["rounds"])
+        return
     if spec["kind"] == "move-post-removal":
         # RFC 6902 4.4: a move is a remove followed by an add, so its `path` is read against the document AFTER the source
         # is gone.  Every source x every location (and one- and two-step extension) of the post-removal document.
@@ -400,6 +407,11 @@ def finalize(m, tier):
 
 
 def replay(case, ctx):
+    if case.get("kind") == "threads":
+        from .c15 import run_threads
+
+        run_threads(ctx, 40, fixed=(case["template"], case["ops"]))
+        return
     if case.get("flags"):
         from rt import flag_history
 
